@@ -499,9 +499,10 @@ def make_machine(ctx, workers, seen):
             self._compute({"k": "add", "y": y, "f": f, "rep": rep, "d": d})
 
         @rule(y=Y, f=st.sampled_from([0, 0, 1, 58, 59, 60, 359, 364, 365]),
-              rep=REP, d=st.sampled_from([0, 1, 9, 9, 10, 3, 2]))
+              rep=REP, d=st.sampled_from([0, 1, 9, 9, 10, 3, 2, 7, 12, 5, 11]))
         def add_at_year_edge(self, y, f, rep, d):
-            # a day or a year's worth of days either way from the first / last
+            # a day, a month, a year (nominal or a year's worth of days) either
+            # way from the first / last
             # days of a year and around the end of February: where the carry
             # depends on the mode's year and month lengths
             self._compute({"k": "add", "y": y, "f": f, "rep": rep, "d": d})
@@ -510,6 +511,16 @@ def make_machine(ctx, workers, seen):
               dom=st.sampled_from([28, 29, 29, 30, 1]))
         def add_trunc(self, y, f, dom):
             self._compute({"k": "add_trunc", "y": y, "f": f, "dom": dom})
+
+        @rule(y=st.sampled_from([2000, 2004, 2020, 2024, 0, 4, -4, 1996, 2096]),
+              k=st.sampled_from([("c", 59), ("c", 59), ("o", 365), ("c", 30),
+                                 ("w", 363)]),
+              d=st.sampled_from([7, 12, 6, 11, 5]))
+        def leap_day_step(self, y, k, d):
+            # 29 February / day 366 / the last week of a leap-numbered year
+            # (or 31 January) stepped by whole years or months: clamped by
+            # the mode's own month and year lengths
+            self._compute({"k": "add", "y": y, "f": k[1], "rep": k[0], "d": d})
 
         @rule(y=Y, f=Fr, rep=REP, n=st.sampled_from([1, -1, 11, -11, 12, 13, -13]))
         def add_months(self, y, f, rep, n):
